@@ -398,6 +398,16 @@ class Search:
             if actor.act == "add_other" and pairs:
                 # the actor itself stayed registered for the whole datagram
                 whole(actor, "acting listener (adds another)")
+                # ... and the listener it registered during the first round is a registered listener when the cache has been
+                # brought up to date: it is owed the second call (the first one it may or may not have received)
+                if actor.other is not None:
+                    comps = [c for c in actor.other.calls if c[0] == "c"]
+                    if len(comps) != 1:
+                        problems.append(f"listener-calls: a listener registered during the first round got {len(comps)} "
+                                        f"completion calls for that datagram, expected exactly one")
+                    elif not exp["contradictory"] and comps[0][1] != after:
+                        problems.append(f"listener-complete: cache at completion {comps[0][1]} != model {after} (listener "
+                                        f"registered during the first round)")
 
 
 def run_search(prop: str, tier: str, depth: int, stats: Stats, configs: List[str], dedup: bool = True,
